@@ -894,7 +894,9 @@ func (st *State) iterCall(x *ssa.Call, method string, args []Val) Val {
 				if blob != "" {
 					sv.Blob = blob
 				}
-				if n.IsConst() && n.C >= 0 && n.C <= 64 && blob == "" {
+				// a fetch that certainly fails (cursor + n beyond the length) delivers no bytes: do not ask for them
+				certainFail := st.ProveSimplified(ip.SimplifyForm(cur.Add(n).Sub(st.IterLen(it)).AddC(-1), st))
+				if n.IsConst() && n.C >= 0 && n.C <= 64 && blob == "" && !certainFail {
 					for k := int64(0); k < n.C; k++ {
 						if bv, ok := ip.Oracle.Byte(st, it, cur.AddC(k), fmt.Sprintf("%s.[%d]", ev, k)); ok {
 							st.mem[fmt.Sprintf("%s.[%d]", ev, k)] = bv
